@@ -30,6 +30,7 @@ def worker(prop, tier):
         if tier == "quick" and ob.tier != "quick":
             continue
         w = SymWorld(order=dict(ob.order))
+        cov.switch_context(ob.id)
         try:
             with X.symbolic(w):
                 ob.fn(w)
@@ -54,6 +55,16 @@ def main():
     cov.combine([os.path.join(SCR, f) for f in os.listdir(SCR) if f.startswith("cov.C")], keep=True)
     cov.save()
     total_missing = 0
+    if os.environ.get("GTV_LINE_MAP"):
+        # line -> obligations that execute it (input of tools/mutate.py)
+        import json
+        data = cov.get_data()
+        out = {}
+        for f in data.measured_files():
+            rel = os.path.relpath(f, REPO)
+            out[rel] = {str(ln): sorted(c for c in ctxs if c) for ln, ctxs in data.contexts_by_lineno(f).items()}
+        with open(os.environ["GTV_LINE_MAP"], "w") as fh:
+            json.dump(out, fh)
     for root, _, files in os.walk(os.path.join(REPO, "gaussian_toolbox")):
         for f in sorted(files):
             if not f.endswith(".py"):
